@@ -148,7 +148,13 @@ def gen(rng, positive_only):
             c["via_var"] = True
         calls.append(c)
     rebind = None
-    lines += defs
+    if defs and rng.random() < 0.5 and not any(".stop()" in d for d in defs):
+        # the helpers are written ABOVE the buzzer declarations (names are looked up when the helper runs); a stop() in such a
+        # helper is the known finding device-call-in-function-before-declaration, so those stay below
+        k0 = len(HDR.splitlines())
+        lines[k0:k0] = defs
+    else:
+        lines += defs
     if not in_loop and nb == 1 and len(calls) >= 4 and rng.random() < 0.3 and not defs:
         # the same buzzer name re-bound to another pin half-way: earlier calls drive the first pin, later calls the new one
         cut = len(calls) // 2
